@@ -107,3 +107,10 @@ V("tuple-accumulator-always", "C06", "pyteal/ast/abi/tuple.py", "               
 V("dyn-array-no-prefix", "C06", "pyteal/ast/abi/array_base.py", "            encoded = Concat(length_prefix, encoded)", "            encoded = Concat(encoded, length_prefix)", "R06.4")
 V("address-str", "C06", "pyteal/ast/abi/address.py", "        return \"address\"", "        return \"byte[32]\"", "R06.1")
 V("string-not-dynamic", "C06", "pyteal/ast/abi/array_dynamic.py", "    def is_dynamic(self) -> bool:\n        return True", "    def is_dynamic(self) -> bool:\n        return self.value_type_spec().is_dynamic()", "R06.1")
+
+# ------------------------------------------------------------------------------- C16
+V("wideratio-swap-missing", "C16", "pyteal/ast/widemath.py", "                TealOp(self, Op.swap),  # swap quotient high and low words\n", "", "R16.1")
+V("wideratio-addw", "C16", "pyteal/ast/widemath.py", "                    TealOp(\n                        expr, Op.add\n                    ),", "                    TealOp(\n                        expr, Op.addw\n                    ),", None)
+V("wideratio-one-factor-highword-after", "C16", "pyteal/ast/widemath.py", "        start.setNextBlock(highword)\n        highword.setNextBlock(fac0Start)\n\n        end = fac0End", "        start.setNextBlock(fac0Start)\n        fac0End.setNextBlock(highword)\n\n        end = highword", "R16.1")
+V("wideratio-dig-0", "C16", "pyteal/ast/widemath.py", "                    TealOp(expr, Op.dig, 1),  # stack: [..., B, C, A, C]", "                    TealOp(expr, Op.dig, 0),  # stack: [..., B, C, A, C]", "R16.1")
+V("wideratio-no-assert", "C16", "pyteal/ast/widemath.py", "                TealOp(self, Op.logic_not),\n                TealOp(self, Op.assert_),  # assert quotient high word is 0", "                TealOp(self, Op.pop),", "R16.1")
